@@ -375,6 +375,9 @@ func (r Wrapper) getPresentationDefinitionFromRequest(ctx context.Context, param
 	return presentationDefinition, nil
 }
 
+// userWalletHandOverKey marks a context in which sendAndHandleDirectPost has already handed over to the user wallet.
+type userWalletHandOverKey struct{}
+
 // sendAndHandleDirectPost sends OpenID4VP direct_post to the verifier. The verifier responds with a redirect to the client (including error fields if needed).
 // If the direct post fails, the user-agent will be redirected back to the client with an error. (Original redirect_uri).
 func (r Wrapper) sendAndHandleDirectPost(ctx context.Context, subject string, vp vc.VerifiablePresentation, presentationSubmission pe.PresentationSubmission, verifierResponseURI string, state string) (HandleAuthorizeRequestResponseObject, error) {
@@ -385,6 +388,12 @@ func (r Wrapper) sendAndHandleDirectPost(ctx context.Context, subject string, vp
 	// Redirect URI starting with openid4vp: is a signal from the OpenID4VP verifier
 	// that it requires another Verifiable Presentation, but this time from a user wallet.
 	if strings.HasPrefix(redirectURI, "openid4vp:") {
+		// The flow knows one such hand-over (organization wallet -> user wallet): do not keep following a verifier that answers
+		// every presentation with a request for another one.
+		if handedOver, _ := ctx.Value(userWalletHandOverKey{}).(bool); handedOver {
+			return nil, errors.New("verifier requested yet another presentation from the user wallet")
+		}
+		ctx = context.WithValue(ctx, userWalletHandOverKey{}, true)
 		parsedRedirectURI, err := url.Parse(redirectURI)
 		if err != nil {
 			return nil, fmt.Errorf("verifier returned an invalid redirect URI: %w", err)
